@@ -372,8 +372,10 @@ def _containment(res, spec, allowed, where, out):
         if op == "mkdir" and (e[4].startswith("ERR:EEXIST") or rel in res.before):
             continue            # makedirs(exist_ok) probing an existing directory changes nothing
         if inside(rel):
-            if op in core.Sim.MUTATORS:
-                viols.append(viol("destructive-call", f"{where}: {op} {rel}", op=op))
+            # rename/replace/remove inside the output directory is legal (atomic page writes); what must survive is
+            # checked through the snapshots (unrelated pre-existing files byte-identical)
+            if op in ("rename", "replace", "link", "symlink") and e[3] and not all(inside(x) for x in e[3]):
+                viols.append(viol("effect-outside-output", f"{where}: {op} {rel} -> {e[3]}", target="other", op=op))
             continue
         if op == "mkdir" and rel in (CONFIG_DIR, posixpath.dirname(CONFIG_DIR)):
             viols.append(viol("effect-outside-output", f"{where}: mkdir {rel} ({e[4]})", target="user-config-dir", op="mkdir"))
